@@ -59,6 +59,11 @@ CHECKS = {
    text="for a list of symbolic length with 2-/3-element entries: every iteration appends exactly one element and it is ENTRY(item) from the statement (single-pair API result + label of the returned colour; invalid "
         "entries kept with a non-readable status), len(results) == len(pairs); ColorPair / make_readable / is_readable enter as function symbols of their arguments. Bounded twin on the real code (engine E).",
    note=TB + "determinism of the single-pair API (C15); never raises (C14).", ref='§8 C12'),
+ 'C14': dict(cat='proof', tech='contract-based deductive verification with tagged symbolic values and exception edges: VCs from the real ASTs of the parser stack (engine A, z3; exact non-linear arithmetic for the hsl range)',
+   text="over the statement's input domain (any str; tuples/lists of length 0..5 of members with a symbolic tag int/bool/finite float/nan/+-inf/str/None) every function of the parser stack raises at most ValueError with a non-empty "
+        "message and returns int triples in 0..255; Color.__init__ and ColorPair.__init__ raise nothing and establish the object invariant; invalid pairs give 'Not Readable', (None, False) and a kept bulk entry. "
+        "Each function is proved against its callees' contracts only. Bounded fuzz twin on the real code (engine E).",
+   note=TB + "str methods / re / float(str) / int(str,16) as documented (total; ValueError only); ints of moderate magnitude; hex digit table range by engine D.", ref='§8 C14'),
  'C15': dict(cat='proof', tech='modular frame / purity checker over the real ASTs (engine C): computed effects of each function within its declared effect contract, callees by declaration only',
    text="every function of the core is proved PURE (no module-level mutable state, no argument/self mutation outside constructors, no stateful decorators, no mutable defaults, no set iteration, no reflection, no output, no files); "
         "purity implies history-, position- and repetition-independence. Threads / separate interpreters follow by implication only (no schedule model) and are exercised by a bounded dynamic twin.",
@@ -93,7 +98,7 @@ man = {
            'baseline_off_cmd': 'cd /repo && /venv/bin/python -m pytest -ra -q -p no:cacheprovider --timeout=900 --continue-on-collection-errors',
            'source_commits': [], 'add_only': True},
  'engines': [
-   {'name': 'A pyvc', 'path': 'vf/symex.py', 'serves_properties': ['C01', 'C02', 'C04', 'C16'], 'kind_free_text': 'AST -> verification conditions, modular contracts, z3/cvc5'},
+   {'name': 'A pyvc', 'path': 'vf/symex.py', 'serves_properties': ['C01', 'C02', 'C04', 'C05', 'C06', 'C10', 'C12', 'C14', 'C16', 'C17'], 'kind_free_text': 'AST -> verification conditions, modular contracts, z3/cvc5'},
    {'name': 'B ringconf', 'path': 'vf/ring.py', 'serves_properties': ['C05', 'C10', 'C11'], 'kind_free_text': 'code == published formula as commutative-ring normal forms over uninterpreted atoms; path matching in z3 QF_LIRA'},
    {'name': 'C effects', 'path': 'vf/effects.py', 'serves_properties': ['C08', 'C09', 'C15', 'C17', 'C18', 'C19'], 'kind_free_text': 'modular frame/effect checker and HTML provenance analysis over the real ASTs'},
    {'name': 'D fdx', 'path': 'vf/fdx.py', 'serves_properties': ['C01', 'C05', 'C06', 'C11'], 'kind_free_text': 'exhaustive evaluation of the real functions on finite colour domains (16 processes)'},
